@@ -86,7 +86,7 @@ PROPS = {
         level="model_checking",
         level_text="bounded model checking by symbolic execution: the repository's unquote and the standard library's strconv.Unquote are both executed from SSA on the same symbolic literal bytes and compared on every feasible path (all byte strings up to the bound, and structured literals made of plain bytes, escape letters, \\xHH, \\OOO and \\uHHHH items in the three quoting styles); invalid escapes must be rejected",
         level_note="trusted: the SSA executor (sampled paths replayed natively), z3 (+ byte-domain fast path cross-checked against z3 every 50th verdict); bounds: literals <= 4 (quick) / 5 (thorough) bytes, structured literals <= 2 / 3 items; mapper selection (Map/Upper on selected token types) is checked in the parser-side run",
-        runs=[dict(pkg=".", files=["root/zz_verif_map.go", "root/zz_verif_ref.go", "root/zz_verif_parse.go", "root/zz_verif_grammars.go", "root/zz_verif_gengrammar.go"], harness="^VH_C18_",
+        runs=[dict(pkg=".", files=["root/zz_verif_map.go", "root/zz_verif_ref.go", "root/zz_verif_ggcore.go", "root/zz_verif_parse.go", "root/zz_verif_grammars.go", "root/zz_verif_gengrammar.go"], harness="^VH_C18_",
                    reach={"VH_C18_UnquoteFree": ["stdlib-accepts", "stdlib-rejects"], "VH_C18_UnquoteStructured": ["stdlib-accepts", "stdlib-rejects", "single-quoted"],
                           "VH_C18_InvalidEscape": ["invalid", "valid"], "VH_C18_Select": ["mapped"], "VH_C18_Chain": ["chained"]})],
         bounds=dict(quick="all byte strings of length 2..4 as token text; structured literals: quote in {\", `, '} x <= 2 items (first item any of 5 kinds, later items plain/escape-letter/\\xHH) with symbolic bytes, letters and digits",
@@ -99,7 +99,7 @@ PROPS = {
         level="model_checking",
         level_text='bounded model checking by symbolic execution: the real Build (tag lexing by text/scanner executed from SSA, grammar.go, validate) and the real Parse (parser.go, nodes.go, context.go, lexer/peek.go) run on a symbolic token stream; accept/reject and every AST field are compared on every feasible path with an independent reference semantics of the tag language',
         level_note='trusted: the reference semantics (own tag parser + evaluator written from the README, validated natively against the implementation on 960k random cases while designing), the reflect model of the executor (sampled paths are replayed natively with the real reflect on every run), z3; bounds: catalogue grammars x streams of <= 5 (quick) / <= 7 (thorough) tokens of arbitrary type and arbitrary one-byte text, lookahead an unconstrained 64-bit int, AllowTrailing symbolic',
-        runs=[dict(pkg=".", files=["root/zz_verif_ref.go", "root/zz_verif_parse.go", "root/zz_verif_grammars.go", "root/zz_verif_gengrammar.go"], harness='^VH_C01_', reach={'VH_C01_Alt': ['accept', 'reject'], 'VH_C01_Union': ['accept', 'reject'], 'VH_C01_Fold': ['accept'], 'VH_C01_Lookahead': ['accept', 'reject']})],
+        runs=[dict(pkg=".", files=["root/zz_verif_ref.go", "root/zz_verif_ggcore.go", "root/zz_verif_parse.go", "root/zz_verif_grammars.go", "root/zz_verif_gengrammar.go"], harness='^VH_C01_', reach={'VH_C01_Alt': ['accept', 'reject'], 'VH_C01_Union': ['accept', 'reject'], 'VH_C01_Fold': ['accept'], 'VH_C01_Lookahead': ['accept', 'reject']})],
         bounds={'quick': 'streams of <= 5 tokens + EOF, token types arbitrary 64-bit values != EOF, token texts arbitrary single bytes, lookahead any int (negative = unlimited), AllowTrailing on/off; symbols A,B,C,Ws,Cm', 'thorough': 'as quick with streams of <= 7 tokens'},
         outside='grammars outside the catalogue (20 grammars: sequence, choice, ? * + !, [ ] { }, multi-token captures, parser:"" tag form, ~, (?= ) (?! ), typed literals, case-insensitive tokens, @@ into *T / T / []*T / []T, recursion, unions, lexer.Token / []lexer.Token captures, elision); streams longer than the bound; token texts longer than one byte; non-ASCII case folding; Parseable/Capture/TextUnmarshaler user code; numeric fields (C17); which error is returned (C06)',
         assumptions=["text/scanner, strconv, unicode are executed from SSA; reflect is modelled over go/types; fmt by a small printf model",
@@ -110,7 +110,7 @@ PROPS = {
         level="model_checking",
         level_text='as C01 on grammars in which a capture precedes a possible failure inside every kind of choice point (alternative, ?, *, ~, lookahead group, union member), including a complete sub-production matched inside the abandoned attempt; every AST field — also fields the accepted derivation never wrote — is compared with the reference on every accepted path',
         level_note='trusted: the reference semantics (own tag parser + evaluator written from the README, validated natively against the implementation on 960k random cases while designing), the reflect model of the executor (sampled paths are replayed natively with the real reflect on every run), z3; bounds: catalogue grammars x streams of <= 5 (quick) / <= 7 (thorough) tokens of arbitrary type and arbitrary one-byte text, lookahead an unconstrained 64-bit int, AllowTrailing symbolic',
-        runs=[dict(pkg=".", files=["root/zz_verif_ref.go", "root/zz_verif_parse.go", "root/zz_verif_grammars.go", "root/zz_verif_gengrammar.go"], harness='^VH_C02_', reach={'VH_C02_Leak': ['accept', 'reject'], 'VH_C02_LeakOpt': ['accept'], 'VH_C02_LeakNested': ['accept']})],
+        runs=[dict(pkg=".", files=["root/zz_verif_ref.go", "root/zz_verif_ggcore.go", "root/zz_verif_parse.go", "root/zz_verif_grammars.go", "root/zz_verif_gengrammar.go"], harness='^VH_C02_', reach={'VH_C02_Leak': ['accept', 'reject'], 'VH_C02_LeakOpt': ['accept'], 'VH_C02_LeakNested': ['accept']})],
         bounds={'quick': 'streams of <= 5 tokens + EOF, token types arbitrary 64-bit values != EOF, token texts arbitrary single bytes, lookahead any int (negative = unlimited), AllowTrailing on/off; symbols A,B,C,Ws,Cm', 'thorough': 'as quick with streams of <= 7 tokens'},
         outside='grammars outside the catalogue; streams longer than the bound',
         assumptions=["text/scanner, strconv, unicode are executed from SSA; reflect is modelled over go/types; fmt by a small printf model",
@@ -121,7 +121,7 @@ PROPS = {
         level="model_checking",
         level_text='bounded model checking by symbolic execution: on every feasible path of Build + ParseString over a symbolic token stream: no panic; nil error implies non-nil AST; an error implements participle.Error, comes with a non-nil partial AST, its position is the position of a token of the input, an UnexpectedTokenError carries the token at that position, and Error() is the documented [file:]line:col: message rendering',
         level_note='trusted: the reference semantics (own tag parser + evaluator written from the README, validated natively against the implementation on 960k random cases while designing), the reflect model of the executor (sampled paths are replayed natively with the real reflect on every run), z3; bounds: catalogue grammars x streams of <= 5 (quick) / <= 7 (thorough) tokens of arbitrary type and arbitrary one-byte text, lookahead an unconstrained 64-bit int, AllowTrailing symbolic',
-        runs=[dict(pkg=".", files=["root/zz_verif_ref.go", "root/zz_verif_parse.go", "root/zz_verif_grammars.go", "root/zz_verif_gengrammar.go", "root/zz_verif_entry.go"], harness='^VH_C06_', reach={'VH_C06_Seq': ['ok', 'error', 'unexpected-token'], 'VH_C06_EmptyTok': ['ok', 'error'], 'VH_C06_Bytes': ['ok', 'lex-error', 'parse-error']})],
+        runs=[dict(pkg=".", files=["root/zz_verif_ref.go", "root/zz_verif_ggcore.go", "root/zz_verif_parse.go", "root/zz_verif_grammars.go", "root/zz_verif_gengrammar.go", "root/zz_verif_entry.go"], harness='^VH_C06_', reach={'VH_C06_Seq': ['ok', 'error', 'unexpected-token'], 'VH_C06_EmptyTok': ['ok', 'error'], 'VH_C06_Bytes': ['ok', 'lex-error', 'parse-error']})],
         bounds={'quick': 'streams of <= 5 tokens + EOF, token types arbitrary 64-bit values != EOF, token texts arbitrary single bytes, lookahead any int (negative = unlimited), AllowTrailing on/off; symbols A,B,C,Ws,Cm', 'thorough': 'as quick with streams of <= 7 tokens'},
         outside='stack depth and running time on long or deeply nested inputs (a bounded symbolic run says nothing about them); lexing failures through the real lexers (covered by C03/C07 at the lexer level); grammars outside the catalogue; user Parseable/Capture code',
         assumptions=["text/scanner, strconv, unicode are executed from SSA; reflect is modelled over go/types; fmt by a small printf model",
@@ -132,7 +132,7 @@ PROPS = {
         level="model_checking",
         level_text="relational bounded model checking: one symbolic raw stream S with elided tokens anywhere and the stream S' with every elided token removed are parsed by the same grammar; acceptance and every captured field must agree on every feasible path (any two inputs with equal non-elided sequences are both related to the same S'); a grammar that names the elided type is compared with the reference semantics",
         level_note='trusted: the reference semantics (own tag parser + evaluator written from the README, validated natively against the implementation on 960k random cases while designing), the reflect model of the executor (sampled paths are replayed natively with the real reflect on every run), z3; bounds: catalogue grammars x streams of <= 5 (quick) / <= 7 (thorough) tokens of arbitrary type and arbitrary one-byte text, lookahead an unconstrained 64-bit int, AllowTrailing symbolic',
-        runs=[dict(pkg=".", files=["root/zz_verif_ref.go", "root/zz_verif_parse.go", "root/zz_verif_grammars.go", "root/zz_verif_gengrammar.go"], harness='^VH_C10_', reach={'VH_C10_Seq': ['has-elided', 'accepted'], 'VH_C10_Alt': ['has-elided', 'accepted'], 'VH_C10_Named': ['accept']})],
+        runs=[dict(pkg=".", files=["root/zz_verif_ref.go", "root/zz_verif_ggcore.go", "root/zz_verif_parse.go", "root/zz_verif_grammars.go", "root/zz_verif_gengrammar.go"], harness='^VH_C10_', reach={'VH_C10_Seq': ['has-elided', 'accepted'], 'VH_C10_Alt': ['has-elided', 'accepted'], 'VH_C10_Named': ['accept']})],
         bounds={'quick': 'streams of <= 5 tokens + EOF, token types arbitrary 64-bit values != EOF, token texts arbitrary single bytes, lookahead any int (negative = unlimited), AllowTrailing on/off; symbols A,B,C,Ws,Cm', 'thorough': 'as quick with streams of <= 7 tokens'},
         outside='grammars outside the catalogue; streams longer than the bound; elided tokens whose text equals an untyped literal of the grammar (assumed away: such a literal asks for the token)',
         assumptions=["text/scanner, strconv, unicode are executed from SSA; reflect is modelled over go/types; fmt by a small printf model",
@@ -143,7 +143,7 @@ PROPS = {
         level="model_checking",
         level_text='bounded model checking by symbolic execution: on every accepted path the Tokens / Pos / EndPos fields of every node (direct and via an embedded struct) are compared with the token run the reference semantics assigns to that node: contiguity, containment in the parent, sibling order, root run ending at the last consumed token, Pos = first non-elided token, EndPos = next raw token',
         level_note='trusted: the reference semantics (own tag parser + evaluator written from the README, validated natively against the implementation on 960k random cases while designing), the reflect model of the executor (sampled paths are replayed natively with the real reflect on every run), z3; bounds: catalogue grammars x streams of <= 5 (quick) / <= 7 (thorough) tokens of arbitrary type and arbitrary one-byte text, lookahead an unconstrained 64-bit int, AllowTrailing symbolic',
-        runs=[dict(pkg=".", files=["root/zz_verif_ref.go", "root/zz_verif_parse.go", "root/zz_verif_grammars.go", "root/zz_verif_gengrammar.go"], harness='^VH_C11_', reach={'VH_C11_Pos': ['accept', 'node-consumed'], 'VH_C11_Embedded': ['accept', 'node-consumed']})],
+        runs=[dict(pkg=".", files=["root/zz_verif_ref.go", "root/zz_verif_ggcore.go", "root/zz_verif_parse.go", "root/zz_verif_grammars.go", "root/zz_verif_gengrammar.go"], harness='^VH_C11_', reach={'VH_C11_Pos': ['accept', 'node-consumed'], 'VH_C11_Embedded': ['accept', 'node-consumed']})],
         bounds={'quick': 'streams of <= 5 tokens + EOF, token types arbitrary 64-bit values != EOF, token texts arbitrary single bytes, lookahead any int (negative = unlimited), AllowTrailing on/off; symbols A,B,C,Ws,Cm', 'thorough': 'as quick with streams of <= 7 tokens'},
         outside='grammars outside the catalogue; convertible position types other than lexer.Position; streams longer than the bound',
         assumptions=["text/scanner, strconv, unicode are executed from SSA; reflect is modelled over go/types; fmt by a small printf model",
@@ -154,7 +154,7 @@ PROPS = {
         level="model_checking",
         level_text='relational bounded model checking: the same symbolic stream is parsed with lookahead k and k2, both symbolic with k >= 0 and (k2 < 0 or k2 > k); whenever the first parse succeeds the second must succeed with a field-by-field identical AST (no reference semantics involved)',
         level_note='trusted: the reference semantics (own tag parser + evaluator written from the README, validated natively against the implementation on 960k random cases while designing), the reflect model of the executor (sampled paths are replayed natively with the real reflect on every run), z3; bounds: catalogue grammars x streams of <= 5 (quick) / <= 7 (thorough) tokens of arbitrary type and arbitrary one-byte text, lookahead an unconstrained 64-bit int, AllowTrailing symbolic',
-        runs=[dict(pkg=".", files=["root/zz_verif_ref.go", "root/zz_verif_parse.go", "root/zz_verif_grammars.go", "root/zz_verif_gengrammar.go"], harness='^VH_C13_', reach={'VH_C13_Alt': ['succeeds-with-k', 'fails-with-k'], 'VH_C13_LeakOpt': ['succeeds-with-k']})],
+        runs=[dict(pkg=".", files=["root/zz_verif_ref.go", "root/zz_verif_ggcore.go", "root/zz_verif_parse.go", "root/zz_verif_grammars.go", "root/zz_verif_gengrammar.go"], harness='^VH_C13_', reach={'VH_C13_Alt': ['succeeds-with-k', 'fails-with-k'], 'VH_C13_LeakOpt': ['succeeds-with-k']})],
         bounds={'quick': 'streams of <= 5 tokens + EOF, token types arbitrary 64-bit values != EOF, token texts arbitrary single bytes, lookahead any int (negative = unlimited), AllowTrailing on/off; symbols A,B,C,Ws,Cm', 'thorough': 'as quick with streams of <= 7 tokens'},
         outside='grammars outside the catalogue (9 grammars without ~ and lookahead groups); streams longer than the bound',
         assumptions=["text/scanner, strconv, unicode are executed from SSA; reflect is modelled over go/types; fmt by a small printf model",
@@ -165,7 +165,7 @@ PROPS = {
         level="model_checking",
         level_text="bounded exploration through the symbolic executor: the tag lexer is stubbed so that every struct field yields an arbitrary sequence of up to T tokens of the tag alphabet; the real parseType / parseDisjunction / parseSequence / parseTerm / parseModifier / parseCapture / parseGroup / lookahead / negation / literal code, struct.go's structLexer and validate/visit run on every such token sequence and must return a node xor an error and never panic; the positive direction (documented grammars build) is asserted by every C01 run. Honest accounting: the tag alphabet is finite, so the solver only decides the feasibility of the choices; the exploration is exhaustive within the bound",
         level_note="trusted: the stub contract (text/scanner + textScannerTransform turn the rendered tag text into exactly the chosen tokens) — validated on every run because sampled paths and every counterexample are replayed natively with real struct tags lexed by the real scanner; reflect.StructOf is modelled over go/types; bounds below",
-        runs=[dict(pkg=".", files=["root/zz_verif_ref.go", "root/zz_verif_parse.go", "root/zz_verif_grammars.go", "root/zz_verif_build.go"], harness="^VH_C19_", samples=12,
+        runs=[dict(pkg=".", files=["root/zz_verif_ref.go", "root/zz_verif_ggcore.go", "root/zz_verif_parse.go", "root/zz_verif_grammars.go", "root/zz_verif_build.go"], harness="^VH_C19_", samples=12,
                    reach={"VH_C19_FieldTypes": ["built", "rejected"], "VH_C19_Soup1": ["built", "rejected"], "VH_C19_Soup2": ["built", "rejected"]})],
         bounds=dict(quick="one field: all sequences of 1..3 tokens over a 15-token alphabet (@ ! ~ ? * + ( ) [ ] | : known ident, unknown ident, string) x 6 field types (string, *Struct, []string, bool, map, interface); two fields: all sequences of 1..2 tokens per field over an 8-token alphabet x 3 field types",
                     thorough="one field: 1..4 tokens over the 22-token alphabet (adds { } = , char, raw string, int) x 11 field types; two fields: 1..3 tokens per field"),
@@ -177,7 +177,7 @@ PROPS = {
         level="model_checking",
         level_text="bounded exploration through the symbolic executor, two halves: (1) for every instance of a template of two mutually referring productions (recursive reference in the first or a later alternative, after optional / lookahead / non-empty prefixes, inside groups, captures and lookahead groups, through the other production) the real validate/visit/isLeftRecursive run on the directly constructed node graph and are compared with a reference analysis (nullable + leftmost-call graph + cycle search); (2) every instance that validate accepts is parsed on a symbolic token stream under a monitor around (*strct).Parse asserting that no production is re-entered at the same cursor (solver-decided on token texts and the lookahead)",
         level_note="trusted: the reference analysis (half 1) - cross-checked by the independent run-time monitor (half 2); node graphs are built as parseSequence/parseDisjunction shape them (head flags, collapsing of singletons); the template's selectors are finite, so for half 1 the solver decides feasibility only; bounds below",
-        runs=[dict(pkg=".", files=["root/zz_verif_ref.go", "root/zz_verif_parse.go", "root/zz_verif_grammars.go", "root/zz_verif_graph.go"], harness="^VH_C08_",
+        runs=[dict(pkg=".", files=["root/zz_verif_ref.go", "root/zz_verif_ggcore.go", "root/zz_verif_parse.go", "root/zz_verif_grammars.go", "root/zz_verif_graph.go"], harness="^VH_C08_",
                    reach={"VH_C08_Validate": ["left-recursive", "not-left-recursive"], "VH_C08_ValidateWide": ["left-recursive", "not-left-recursive"], "VH_C08_Parse": ["accepted-by-validate", "parsed", "rejected"]})],
         bounds=dict(quick="root production: 1-2 alternatives, <= 2 terms in the first and 1 in the second, 9 term kinds (literal, lit?, (?= lit), ~lit, @@self, @@other, (@@self)?, (?= @@self), (lit?)!); second production: 1-2 terms from {literal, lit?, @@self, @@root}: 18 000 grammars; parse half: streams <= 3 tokens, lookahead any int",
                     thorough="second alternative <= 2 terms, 14 term kinds (adds lit*, lit+, (?! lit), (@@self), ~(@@other)); streams <= 4 tokens"),
@@ -189,7 +189,7 @@ PROPS = {
         level="model_checking",
         level_text="bounded model checking by symbolic execution of setField / conform / sizeOfKind / the capture and error path of strct.Parse through the real Build and Parse: (A) for every integer kind (int8..int64, int, uint8..uint64, uint, a named type, a pointer) the captured text is opaque and strconv.ParseInt/ParseUint are uninterpreted functions with the documented contract; the solver proves, for every 64-bit result and both outcomes, that the stored value equals the result of the conversion the property prescribes (base 0, the field's bit size) or that the parse fails with an error located at the captured token and nothing stored; (B) joined tokens, slices and floats are checked on a catalogue of 40 boundary texts against strconv itself",
         level_note="trusted: uninterpreted-function model of strconv.ParseInt/ParseUint (functional consistency + 'on success the value fits bitSize'); reflect model (SetInt/SetUint truncate like the real ones; sampled paths replayed natively with real reflect and real strconv); z3",
-        runs=[dict(pkg=".", files=["root/zz_verif_ref.go", "root/zz_verif_parse.go", "root/zz_verif_grammars.go", "root/zz_verif_num.go"], harness="^VH_C17_",
+        runs=[dict(pkg=".", files=["root/zz_verif_ref.go", "root/zz_verif_ggcore.go", "root/zz_verif_parse.go", "root/zz_verif_grammars.go", "root/zz_verif_num.go"], harness="^VH_C17_",
                    reach={"VH_C17_Int8": ["converts", "rejects"], "VH_C17_Uint16": ["converts", "rejects"], "VH_C17_Alt": ["converts", "rejects", "other-alternative"],
                           "VH_C17_Join": ["converts", "rejects"], "VH_C17_Slice": ["converts", "rejects"], "VH_C17_Float32": ["converts", "rejects"]})],
         bounds=dict(quick="family A: 12 field shapes x all (value, ok) results of the uninterpreted conversion (64-bit symbolic); family B: 40 boundary texts (width limits of every size, hex/octal/binary prefixes, underscores, empty, exponent, Inf/NaN, float32 overflow) x {joined with '-', 1-2 slice elements, float32, float64}",
@@ -202,10 +202,10 @@ PROPS = {
         level="model_checking",
         level_text="decided through a sufficient condition, not by enumerating schedules: (1) frame condition: after Build / lexer.New / package init every object reachable from the Parser, the lexer Definition and the package-level EBNF parser is frozen in the executor; on every feasible path of Parse*/Lex/String and LexString+Next over symbolic inputs a store into a frozen cell, a write to a frozen map or an append into a frozen slice's spare capacity ends the path as a violation, so concurrent calls work on disjoint mutable memory; (2) history independence: the same call repeated on the same object returns the same result, and for back-reference definitions lexing after an arbitrary earlier input equals lexing with a fresh definition (transparency of the one shared mutable structure, the sync.Map cache)",
         level_note="trusted: sync.Map is linearizable and *regexp.Regexp / reflect caches are safe for concurrent use (stdlib contracts); the executor's heap model (cells = Go variables; maps and slices tracked as described); real interleavings and the race detector are outside this technique; bounds as C01/C03",
-        runs=[dict(pkg=".", files=["root/zz_verif_ref.go", "root/zz_verif_parse.go", "root/zz_verif_grammars.go", "root/zz_verif_entry.go", "root/zz_verif_conc.go"], harness="^VH_C09_", reach={"VH_C09_Parse_Alt": ["accepted", "rejected"], "VH_C09_Parse_Union": ["accepted"]}),
+        runs=[dict(pkg=".", files=["root/zz_verif_ref.go", "root/zz_verif_ggcore.go", "root/zz_verif_parse.go", "root/zz_verif_grammars.go", "root/zz_verif_entry.go", "root/zz_verif_conc.go"], harness="^VH_C09_", reach={"VH_C09_Parse_Alt": ["accepted", "rejected"], "VH_C09_Parse_Union": ["accepted"]}),
               dict(pkg="lexer", files=["lexer/zz_verif_stateful.go", "lexer/zz_verif_lexdefs.go", "lexer/zz_verif_lexgen.go", "lexer/zz_verif_conc.go"], harness="^VH_C09_",
                    reach={"VH_C09_Frame_PushPop": ["lexed", "error"], "VH_C09_History_Backref": ["compared"], "VH_C09_History_Collide": ["compared"]}),
-              dict(pkg="ebnf", files=["ebnf/zz_verif_ebnf.go"], harness="^VH_C09_", reach={"VH_C09_EBNFParser": ["parsed", "failed"]})],
+              dict(pkg="ebnf", files=["ebnf/zz_verif_ebnf.go", "root/zz_verif_ggcore.go"], harness="^VH_C09_", reach={"VH_C09_EBNFParser": ["parsed", "failed"]})],
         bounds=dict(quick="parser: 6 grammars x streams <= 5 tokens (3 Parse calls + String + Lex per path on one frozen parser); lexer: 5 definitions x inputs <= 3 bytes lexed twice on one frozen definition; cache: 2 back-reference definitions, first input <= 3 (2) bytes, second <= 3 (4) bytes over a 3-letter alphabet incl. NUL; ebnf: 4 texts on the frozen package-level parser",
                     thorough="streams <= 7 tokens; inputs <= 4 bytes"),
         outside="real schedules, the Go memory model below the level of variables, races inside user mappers / Parseable code, generated lexers (their definition value is an empty struct; per-call state only)",
@@ -216,7 +216,7 @@ PROPS = {
         level="model_checking",
         level_text="relational bounded model checking by symbolic execution: Trace on/off (same AST and error), ParseFromLexer leaves the caller's lexer at the first unconsumed token (compared with the reference semantics' end position), Parse(reader) / ParseString / ParseBytes / ParseFromLexer over the parser's own lexer return the same AST and the same error for every symbolic input, Parser.Lex returns the tokens the parse consumes (also with an Upper mapper, which only implements Lex), and a definition's Lex and LexString yield identical streams",
         level_note="trusted: io.Copy / strings.Reader / bytes.Reader models (the writer receives exactly the reader's bytes, no error), fmt model for trace output, reference matcher for regexp on symbolic input; default text/scanner lexer content is outside (routing only)",
-        runs=[dict(pkg=".", files=["root/zz_verif_ref.go", "root/zz_verif_parse.go", "root/zz_verif_grammars.go", "root/zz_verif_entry.go", "root/zz_verif_conc.go"], harness="^VH_C15_",
+        runs=[dict(pkg=".", files=["root/zz_verif_ref.go", "root/zz_verif_ggcore.go", "root/zz_verif_parse.go", "root/zz_verif_grammars.go", "root/zz_verif_entry.go", "root/zz_verif_conc.go"], harness="^VH_C15_",
                    reach={"VH_C15_Routing": ["parsed", "failed"], "VH_C15_RoutingMapped": ["parsed", "failed"], "VH_C15_Trace_Alt": ["traced"], "VH_C15_Cursor_Seq": ["accept"], "VH_C15_LexEntryPoints": ["lexed"], "VH_C15_RoutingDefault": ["parsed", "failed"], "VH_C15_LexEntryPointsDefault": ["lexed", "lex-error"]})],
         bounds=dict(quick="Trace/cursor: 6 grammar x configuration pairs, streams <= 5 tokens; routing: stateful lexer (Ident/Num/elided ws) + grammar, inputs <= 3 arbitrary bytes, filename in {\"\", \"f\"}, with and without Upper(\"Ident\")",
                     thorough="streams <= 7 tokens; inputs <= 4 bytes"),
@@ -228,7 +228,7 @@ PROPS = {
         level="model_checking",
         level_text="partial claim, bounded exploration through the symbolic executor: (a) every EBNF syntax tree of a bounded template (Negation symbolic, any modifier, name/literal/token/group, any lookahead marker, sequences and alternatives) is printed by the real String methods and parsed back by the real ebnf parser; the trees must be equal (so no operator is lost or altered); (b) for grammars using every operator, a union and anonymous struct types, the real Parser.String() must not panic, must be accepted by the ebnf package, put the root production first, define every referenced production exactly once, contain every operator of the grammar, and survive a second round trip",
         level_note="trusted: text/scanner executed from SSA on the (concrete) printed text; the template's shape selectors are finite (enumeration through the executor; the solver decides the symbolic Negation flag); whole-grammar half is a fixed catalogue of 3 grammars",
-        runs=[dict(pkg="ebnf", files=["ebnf/zz_verif_ebnf.go"], harness="^VH_C14_", reach={"VH_C14_TreeRoundTrip": ["round-trip"], "VH_C14_Literals": ["round-trip"], "VH_C14_Grammar_All": ["grammar"], "VH_C14_Grammar_Anonymous": ["grammar"]})],
+        runs=[dict(pkg="ebnf", files=["ebnf/zz_verif_ebnf.go", "root/zz_verif_ggcore.go"], harness="^VH_C14_", reach={"VH_C14_TreeRoundTrip": ["round-trip"], "VH_C14_Literals": ["round-trip"], "VH_C14_Grammar_All": ["grammar"], "VH_C14_Grammar_Anonymous": ["grammar"], "VH_C14_Generated": ["grammar"]})],
         bounds=dict(quick="trees: first term a leaf or a group (any lookahead marker) around a term, second element (sequence or alternative) a simple leaf; 12 090 trees; grammars: all-operators grammar, union grammar with literals needing escapes, anonymous struct grammar",
                     thorough="group nesting depth 2"),
         outside="grammars outside the three catalogue grammars; literal texts needing escapes beyond quote and backslash; cmd/railroad",
